@@ -1080,7 +1080,7 @@ package netty
 //@   may_panic true
 //@   modifies all
 //@   ensures timer_released_under_lock: evis(0, "lock r.mutex") && count("lock r.mutex") == 1 && at(first("unlock r.mutex"), r.handlerCtx == nil && r.readTimer == nil) && count("Timer).Stop") <= 1 && count("Timer).Reset") == 0 && count("time.AfterFunc") == 0
-//@   ensures existing_timer_stopped: at(first("lock r.mutex") + 1, implies(r.readTimer != nil, count("Timer).Stop") == 1 && evarg(first("Timer).Stop"), 0) == r.readTimer))
+//@   ensures existing_timer_stopped: at(first("lock r.mutex"), implies(r.readTimer != nil, count("Timer).Stop") == 1 && evarg(first("Timer).Stop"), 0) == r.readTimer))
 //@   ensures then_forwards: implies(!panicked(), evis(nemitted()-1, "InactiveContext.HandleInactive") && evrecv(nemitted()-1) == ctx && evarg(nemitted()-1, 0) == ex && first("unlock r.mutex") < nemitted()-1)
 //@ assume iface HandlerContext.Trigger
 //@   modifies all
@@ -1114,7 +1114,7 @@ package netty
 //@   ensures fires_when_idle: at(1, implies(evres(1, 0) >= r.idleTime && r.handlerCtx != nil, count("HandlerContext.Trigger") == 1))
 //@   ensures never_after_inactive: at(1, implies(r.handlerCtx == nil, count("HandlerContext.Trigger") == 0))
 //@   ensures panic_routed_as_exception: count("Pipeline.FireChannelException") <= 1 && implies(count("Pipeline.FireChannelException") == 1, count("HandlerContext.Trigger") == 1 && first("HandlerContext.Trigger") < first("Pipeline.FireChannelException"))
-//@   ensures rearms_only_existing_timer: evis(nemitted()-1, "runlock r.mutex") && count("rlock r.mutex") == 2 && at(last("rlock r.mutex") + 1, implies(r.readTimer != nil, evis(nemitted()-2, "Timer).Reset") && evarg(nemitted()-2, 0) == r.readTimer && evarg(nemitted()-2, 1) == r.idleTime) && implies(r.readTimer == nil, count("Timer).Reset") == 0)) && count("time.AfterFunc") == 0 && count("Timer).Reset") <= 1
+//@   ensures rearms_only_existing_timer: evis(nemitted()-1, "runlock r.mutex") && count("rlock r.mutex") == 2 && at(last("rlock r.mutex"), implies(r.readTimer != nil, evis(nemitted()-2, "Timer).Reset") && evarg(nemitted()-2, 0) == r.readTimer && evarg(nemitted()-2, 1) == r.idleTime) && implies(r.readTimer == nil, count("Timer).Reset") == 0)) && count("time.AfterFunc") == 0 && count("Timer).Reset") <= 1
 
 // the write-idle handler mirrors the read-idle handler; HandleWrite refreshes BEFORE forwarding
 //@ func (*writeIdleHandler).withLock
@@ -1143,7 +1143,7 @@ package netty
 //@   may_panic true
 //@   modifies all
 //@   ensures timer_released_under_lock: evis(0, "lock w.mutex") && count("lock w.mutex") == 1 && at(first("unlock w.mutex"), w.handlerCtx == nil && w.writeTimer == nil) && count("Timer).Stop") <= 1 && count("Timer).Reset") == 0 && count("time.AfterFunc") == 0
-//@   ensures existing_timer_stopped: at(first("lock w.mutex") + 1, implies(w.writeTimer != nil, count("Timer).Stop") == 1 && evarg(first("Timer).Stop"), 0) == w.writeTimer))
+//@   ensures existing_timer_stopped: at(first("lock w.mutex"), implies(w.writeTimer != nil, count("Timer).Stop") == 1 && evarg(first("Timer).Stop"), 0) == w.writeTimer))
 //@   ensures then_forwards: implies(!panicked(), evis(nemitted()-1, "InactiveContext.HandleInactive") && evrecv(nemitted()-1) == ctx && evarg(nemitted()-1, 0) == ex && first("unlock w.mutex") < nemitted()-1)
 //@ func (*writeIdleHandler).onWriteTimeout
 //@   requires w != nil
@@ -1153,7 +1153,7 @@ package netty
 //@   ensures fires_when_idle: at(1, implies(evres(1, 0) >= w.idleTime && w.handlerCtx != nil, count("HandlerContext.Trigger") == 1))
 //@   ensures never_after_inactive: at(1, implies(w.handlerCtx == nil, count("HandlerContext.Trigger") == 0))
 //@   ensures panic_routed_as_exception: count("Pipeline.FireChannelException") <= 1 && implies(count("Pipeline.FireChannelException") == 1, count("HandlerContext.Trigger") == 1 && first("HandlerContext.Trigger") < first("Pipeline.FireChannelException"))
-//@   ensures rearms_only_existing_timer: evis(nemitted()-1, "runlock w.mutex") && count("rlock w.mutex") == 2 && at(last("rlock w.mutex") + 1, implies(w.writeTimer != nil, evis(nemitted()-2, "Timer).Reset") && evarg(nemitted()-2, 0) == w.writeTimer && evarg(nemitted()-2, 1) == w.idleTime) && implies(w.writeTimer == nil, count("Timer).Reset") == 0)) && count("time.AfterFunc") == 0 && count("Timer).Reset") <= 1
+//@   ensures rearms_only_existing_timer: evis(nemitted()-1, "runlock w.mutex") && count("rlock w.mutex") == 2 && at(last("rlock w.mutex"), implies(w.writeTimer != nil, evis(nemitted()-2, "Timer).Reset") && evarg(nemitted()-2, 0) == w.writeTimer && evarg(nemitted()-2, 1) == w.idleTime) && implies(w.writeTimer == nil, count("Timer).Reset") == 0)) && count("time.AfterFunc") == 0 && count("Timer).Reset") <= 1
 
 // The lock invariant that ties the pieces together: a timer exists only while a context is cached
 // (armed on active, both cleared on inactive), so "no timer => nothing re-arms" and "no context =>
